@@ -130,6 +130,28 @@ Admissible(c) ==
 HumanCandidates(L, c, isNow, absolute, dir) ==
   {Phrase(L, HUnits[uc[1]], uc[2], isNow, absolute, dir) : uc \in {x \in Admissible(c) : x[2] > 0}}
   \cup (IF L.few_second # <<>> /\ LargestIdx(c) \in {0, 7} /\ c[7] <= 10 THEN {FewPhrase(L, isNow, absolute, dir)} ELSE {})
+\* ---- the CLDR category rules of the shipped locales, for non-negative integers -------------------------------
+\* (independent of the locale files: a locale's own rule table is compared with these)
+EnLike == {"da", "de", "en", "en_gb", "en_us", "es", "fo", "it", "nb", "nl", "nn", "sv", "tr"}
+CldrPlural(name, n) ==
+  LET m10 == n % 10  m100 == n % 100 IN
+  CASE name \in EnLike -> IF n = 1 THEN "one" ELSE "other"
+    [] name \in {"fa", "fr", "pt_br"} -> IF n \in {0, 1} THEN "one" ELSE "other"
+    [] name \in {"id", "ja", "ko", "zh"} -> "other"
+    [] name \in {"cs", "sk"} -> IF n = 1 THEN "one" ELSE IF n \in 2..4 THEN "few" ELSE "other"
+    [] name = "he" -> IF n = 1 THEN "one" ELSE IF n = 2 THEN "two" ELSE IF m10 = 0 /\ n > 10 THEN "many" ELSE "other"
+    [] name = "lt" -> IF m10 = 1 /\ m100 \notin 11..19 THEN "one" ELSE IF m10 \in 2..9 /\ m100 \notin 11..19 THEN "few" ELSE "other"
+    [] name = "pl" -> IF n = 1 THEN "one" ELSE IF m10 \in 2..4 /\ m100 \notin 12..14 THEN "few" ELSE "many"
+    [] name \in {"ru", "ua"} -> IF m10 = 1 /\ m100 # 11 THEN "one" ELSE IF m10 \in 2..4 /\ m100 \notin 12..14 THEN "few" ELSE "many"
+    [] OTHER -> "?"
+CldrOrdinal(name, n) ==
+  LET m10 == n % 10  m100 == n % 100 IN
+  CASE name \in {"en", "en_gb", "en_us"} -> IF m10 = 1 /\ m100 # 11 THEN "one" ELSE IF m10 = 2 /\ m100 # 12 THEN "two"
+                                              ELSE IF m10 = 3 /\ m100 # 13 THEN "few" ELSE "other"
+    [] name = "fr" -> IF n = 1 THEN "one" ELSE "other"
+    [] name = "it" -> IF n \in {8, 11, 80, 800} THEN "many" ELSE "other"
+    [] name = "sv" -> IF m10 \in {1, 2} /\ m100 \notin {11, 12} THEN "one" ELSE "other"
+    [] OTHER -> "other"
 \* in_words(): every non-zero unit in order, each "count unit" in the plural form of |count|, joined by sep
 RECURSIVE InWordsR(_, _, _, _)
 InWordsR(L, c, sep, i) ==          \* c may be negative here (signed counts are printed as they are)
